@@ -32,6 +32,12 @@ func kuHash(suite uint16) func() hash.Hash {
 	return sha256.New
 }
 
+func kuHMAC(h func() hash.Hash, key, msg []byte) []byte {
+	m := hmac.New(h, key)
+	m.Write(msg)
+	return m.Sum(nil)
+}
+
 func kuExpandLabel(h func() hash.Hash, secret []byte, label string, length int) []byte {
 	full := "tls13 " + label
 	info := []byte{byte(length >> 8), byte(length), byte(len(full))}
